@@ -301,3 +301,35 @@ package runtime
 //@ ensures[C11] callres((*Stack).Get, 0, 1) != nil ==> ncalls(Input.Get) == 1 && callarg(Input.Get, 0, 1) == (key == "_" ? "message" : key)
 //@ ensures[C11] callres((*Stack).Get, 0, 1) != nil && callres(Input.Get, 0, 2) == nil ==> ncalls(Conv2String) == 1 && callarg(Conv2String, 0, 0) == callres(Input.Get, 0, 0) && callarg(Conv2String, 0, 1) == callres(Input.Get, 0, 1) && result0 == callres(Conv2String, 0, 0) && result1 == callres(Conv2String, 0, 1)
 //@ ensures[C11] callres((*Stack).Get, 0, 1) != nil && callres(Input.Get, 0, 2) != nil ==> result1 != nil
+
+// ---- C12: grok patterns live in the scopes of the checking task ------------------------------------
+
+// add_pattern defines a pattern in the current scope only
+//@ func (*Stack).SetPattern
+//@ props C12
+//@ modifies stack.CheckPattern, maptype(map[string]*grok.GrokPattern)
+//@ ensures stack.CheckPattern != nil && dom(stack.CheckPattern, patternAlias) && stack.CheckPattern[patternAlias] == grokPattern
+//@ ensures old(stack.CheckPattern) != nil ==> stack.CheckPattern == old(stack.CheckPattern) && (forall n string :: n != patternAlias ==> dom(stack.CheckPattern, n) == old(dom(stack.CheckPattern, n)) && stack.CheckPattern[n] == old(stack.CheckPattern[n]))
+//@ ensures old(stack.CheckPattern) == nil ==> fresh(stack.CheckPattern) && (forall n string :: n != patternAlias ==> !dom(stack.CheckPattern, n))
+
+// a lookup sees the innermost definition first
+//@ func (*Stack).GetPattern
+//@ ensures[C12] dom(stack.CheckPattern, pattern) ==> result1 && result0 == stack.CheckPattern[pattern]
+//@ ensures[C12] !dom(stack.CheckPattern, pattern) && stack.Before != nil && dom(stack.Before.CheckPattern, pattern) ==> result1 && result0 == stack.Before.CheckPattern[pattern]
+//@ ensures[C12] !result1 ==> !dom(stack.CheckPattern, pattern) && (stack.Before != nil ==> !dom(stack.Before.CheckPattern, pattern))
+//@ loop 1
+//@ invariant[C12] cur == stack || (!dom(stack.CheckPattern, pattern) && stack.Before != nil && (cur == stack.Before || !dom(stack.Before.CheckPattern, pattern)))
+
+//@ func (*Task).SetPattern
+//@ props C12
+//@ requires ctx.stackCur != nil
+//@ ensures ncalls((*Stack).SetPattern) == 1 && callarg((*Stack).SetPattern, 0, 0) == old(ctx.stackCur) && callarg((*Stack).SetPattern, 0, 1) == patternAlias && callarg((*Stack).SetPattern, 0, 2) == gPattern
+
+// the scope chain first, then the global table
+//@ func (*Task).GetPattern
+//@ props C12
+//@ requires ctx.stackCur != nil
+//@ ensures ncalls((*Stack).GetPattern) == 1 && callarg((*Stack).GetPattern, 0, 0) == ctx.stackCur && callarg((*Stack).GetPattern, 0, 1) == pattern
+//@ ensures callres((*Stack).GetPattern, 0, 1) ==> result1 && result0 == callres((*Stack).GetPattern, 0, 0)
+//@ ensures !callres((*Stack).GetPattern, 0, 1) && dom(DenormalizedGlobalPatterns, pattern) ==> result1 && result0 == DenormalizedGlobalPatterns[pattern]
+//@ ensures !callres((*Stack).GetPattern, 0, 1) && !dom(DenormalizedGlobalPatterns, pattern) ==> !result1
